@@ -92,7 +92,12 @@ func pay(b []byte) M {
 func canonAddrs(m M) {
 	for _, k := range []string{"addr", "src", "dst", "spa", "tpa"} {
 		if s, ok := m[k].(string); ok && strings.Contains(s, ":") {
-			m[k] = addrStr([]byte(addrOf(s)))
+			a := []byte(addrOf(s))
+			m[k] = addrStr(a)
+			if k == "addr" && len(a) == 16 && strings.HasPrefix(string(a), "\x00\x00\x00\x00\x00\x00\x00\x00\x00\x00\xff\xff") {
+				// a v4-mapped IPv6 address: traffic to it travels over IPv4 to the embedded address
+				m["eaddr"] = addrStr(a[12:])
+			}
 		}
 	}
 	if to, ok := m["to"].(map[string]interface{}); ok && to != nil {
